@@ -12,14 +12,16 @@
    cfg = [w        terminal width,
           interval the indicator's redraw interval (ms),
           start, end   the two messages of auto()                 (cells = 1-character strings, no blanks),
-          body     the with-body: a sequence of [k |-> "set" | "work" | "raise", m |-> cells]]
-   set = set_message(m) . work = a yield point without effect . raise = the body raises (ends the body).
+          body     the with-body: a sequence of [k |-> "set" | "work" | "raise" | "interrupt", m |-> cells]]
+   set = set_message(m) . work = a yield point without effect . raise = the body raises an Exception (ends the body) .
+   interrupt = the body raises KeyboardInterrupt (a BaseException; auto() treats it like any other failure of the body).
 
    P-layer (from the statement; over the terminal, the thread states and the outcome only):
        NoMix       every row of the terminal is blank or exactly one frame " v m" with v one of the indicator
                    values and m one of the messages of this run - never two frames run together
        Joined      when M has left the with-block (either way) the spinner thread has ended
-       EndFrame    after a normal exit the last thing on the screen is a frame showing the end message
+       EndFrame    after a normal exit the last thing on the screen is a frame showing the end message and nothing
+                   was drawn behind it (the cursor rests on a blank row below it)
        Terminates  M leaves the with-block (liveness, weak fairness of M, S and the clock)
    A-layer (from progress_indicator.py): message, current, update (= _message, _current, _update_time), the stop
        event, the lock, the pending frame texts (computed from the state read when _display() evaluated its
@@ -75,7 +77,7 @@ Enter(i) ==
          /\ IF Locked THEN pcM' = "lock" /\ UNCHANGED mframe
             ELSE pcM' = "erase" /\ mframe' = Frame(current, it.m)
        ELSE IF it.k = "work" THEN pcM' = "work" /\ UNCHANGED <<message, mframe, mph>>
-       ELSE pcM' = "x_lf" /\ UNCHANGED <<message, mframe, mph>>  \* the body raises: except-branch of auto()
+       ELSE pcM' = "x_lf" /\ UNCHANGED <<message, mframe, mph>>  \* "raise" / "interrupt": except-branch of auto()
 
 MLock == /\ pcM = "lock" /\ lock = ""
          /\ lock' = "M" /\ mframe' = Frame(current, message) /\ pcM' = "erase"
